@@ -8,7 +8,7 @@ CONSTANTS
   MaxReqs = 1
   MaxDkgDeliver = 1
   MaxRelayDeliver = 1
-  MaxBad = 1
+  MaxBad = 0
   MaxStops = 0
   MaxViewMis = 1
   Prompt = TRUE
@@ -17,5 +17,6 @@ CONSTANTS
   WriteAhead = TRUE
   FateCheck = TRUE
   LeaveOnSeen = TRUE
-  InGroupCheck = FALSE
-INVARIANTS SignsOnlyAcceptedGroup
+  InGroupCheck = TRUE
+INVARIANTS TypeOK
+PROPERTIES EntryWhenQuorum
